@@ -7,7 +7,7 @@ use redirectionio::filter::FilterBodyAction;
 use redirectionio::http::Header;
 use serde_json::{json, Value};
 
-fn to_filters(fs: &Value) -> Vec<BodyFilter> {
+pub fn to_filters(fs: &Value) -> Vec<BodyFilter> {
     fs.as_array().unwrap().iter().map(|f| {
         if f["kind"] == "text" {
             BodyFilter::Text(TextBodyFilter { action: match f["action"].as_str().unwrap() { "append_text" => TextAction::Append, "prepend_text" => TextAction::Prepend, _ => TextAction::Replace },
@@ -37,6 +37,31 @@ pub fn split(body: &[u8], cuts: &[usize]) -> Vec<Vec<u8>> {
     chunks
 }
 
+pub fn cq_filters(filters: &Value) -> String {
+    cq_list(filters.as_array().unwrap(), |f| {
+        if f["kind"] == "text" {
+            format!("BFText {} {}", match f["action"].as_str().unwrap() { "append_text" => "TAppend", "prepend_text" => "TPrepend", _ => "TReplace" }, cq_str(f["content"].as_str().unwrap()))
+        } else {
+            format!("mk_html {} {} {} {}", match f["action"].as_str().unwrap() { "append_child" => "HAppendChild", "prepend_child" => "HPrependChild", "replace" => "HReplace", _ => "HOther" },
+                cq_str(f["value"].as_str().unwrap()), cq_list(f["tree"].as_array().unwrap(), |x| cq_str(x.as_str().unwrap())),
+                match f["css"].as_str() { None => "None".to_string(), Some(s) => format!("(Some {})", cq_str(s)) })
+        }
+    })
+}
+
+/// a generated document (sometimes truncated) and a filter list aimed at it
+pub fn gen_body_and_filters(rng: &mut Rng) -> (Vec<u8>, Vec<Value>) {
+    let depth = 1 + rng.below(4);
+    let ch = fillers(rng, 3);
+    let ex = rng.below(3);
+    let (doc, path) = gen_doc(rng, depth, ch, ex, 0);
+    let mut body = serialize_root(&doc);
+    match rng.below(6) { 0 => { let mut k = rng.below(body.len() + 1); while !body.is_char_boundary(k) { k -= 1; } body.truncate(k); } 1 => { body.push_str("<scr"); } _ => {} }
+    let mut values = Vec::new();
+    let filters = gen_filters(rng, &path, false, &mut values);
+    (body.into_bytes(), filters)
+}
+
 pub fn run_case(id: usize, input: &Value) {
     let body: Vec<u8> = input["body"].as_array().unwrap().iter().map(|x| x.as_u64().unwrap() as u8).collect();
     let cuts: Vec<usize> = input["cuts"].as_array().unwrap().iter().map(|x| x.as_u64().unwrap() as usize).collect();
@@ -56,15 +81,7 @@ pub fn run_case(id: usize, input: &Value) {
         Ok(x) => x,
         Err(e) => { emit(id, "", input.clone(), &["panic".to_string()], false, json!({"panic": e})); return; }
     };
-    let cq_filters = cq_list(filters.as_array().unwrap(), |f| {
-        if f["kind"] == "text" {
-            format!("BFText {} {}", match f["action"].as_str().unwrap() { "append_text" => "TAppend", "prepend_text" => "TPrepend", _ => "TReplace" }, cq_str(f["content"].as_str().unwrap()))
-        } else {
-            format!("mk_html {} {} {} {}", match f["action"].as_str().unwrap() { "append_child" => "HAppendChild", "prepend_child" => "HPrependChild", "replace" => "HReplace", _ => "HOther" },
-                cq_str(f["value"].as_str().unwrap()), cq_list(f["tree"].as_array().unwrap(), |x| cq_str(x.as_str().unwrap())),
-                match f["css"].as_str() { None => "None".to_string(), Some(s) => format!("(Some {})", cq_str(s)) })
-        }
-    });
+    let cq_filters = cq_filters(&filters);
     let mut seen = std::collections::BTreeSet::new();
     let mut sel = Vec::new();
     for (d, s, b) in &log { if seen.insert((d.clone(), s.clone())) { sel.push(format!("({}, {}, {})", cq_str(d), cq_str(s), cq_bool(*b))); } }
